@@ -157,7 +157,7 @@ def convert_conventions(
             offset = len(permutation)
             permutation.extend(i + offset for i in shell_permutation)
             signs.extend(shell_signs)
-    return np.array(permutation), np.array(signs)
+    return np.array(permutation, dtype=int), np.array(signs, dtype=int)
 
 
 def iter_cart_alphabet(n: int) -> NDArray[int]:
